@@ -91,6 +91,61 @@ def _benign_one(args):
         shutil.rmtree(d, ignore_errors=True)
 
 
+VERIF = os.path.dirname(os.path.dirname(os.path.abspath(__file__)))
+
+
+def _patch_one(args):
+    """apply a unified diff (a filed sub-agent refactoring or seeded change) to a scratch copy and run the rules"""
+    prop_id, root, pid, patch, base_keys = args
+    import subprocess
+
+    from .check import run_rules
+
+    d = tempfile.mkdtemp(prefix="afkverif-", dir=os.environ.get("TMPDIR") or None)
+    try:
+        _copy_tree(root, d)
+        p = subprocess.run(["patch", "-s", "-p1", "-d", d, "-i", patch], capture_output=True, text=True)
+        if p.returncode != 0:
+            return {"id": pid, "status": "inapplicable"}
+        try:
+            ctx, _ = run_rules(prop_id, Program(d), "quick")
+        except AnalysisError as e:
+            return {"id": pid, "status": "analysis-error", "reports": ["ANALYSIS-ERROR %s" % e]}
+        new = ["%s %s" % (i.rule, i.construct) for i in ctx.failures() if (i.rule, i.construct) not in base_keys]
+        under = [r.rid for r in ctx.undercounted()]
+        return {"id": pid, "status": "ran", "reports": new + under}
+    finally:
+        shutil.rmtree(d, ignore_errors=True)
+
+
+def _corpora(prop_id):
+    import json
+
+    ref, seeds = [], []
+    bdir = os.path.join(VERIF, "benign")
+    if os.path.isdir(bdir):
+        for x in sorted(os.listdir(bdir)):
+            pth = os.path.join(bdir, x, "patch.diff")
+            if os.path.isfile(pth):
+                ref.append((x, pth))
+    sdir = os.path.join(VERIF, "seeded")
+    if os.path.isdir(sdir):
+        for x in sorted(os.listdir(sdir)):
+            mp = os.path.join(sdir, x, "meta.json")
+            if not os.path.isfile(mp):
+                continue
+            try:
+                meta = json.load(open(mp))
+            except ValueError:
+                continue
+            sb = meta.get("still_breaks", True)
+            if isinstance(sb, dict):
+                sb = sb.get("status") != "neutralised"
+            if meta.get("breaks_property") == prop_id and sb:
+                seeds.append((x, os.path.join(sdir, x, "patch.diff")))
+    return ref, seeds
+
+
 def run(prop_id, mod, prog, ctx, jobs=16):
     mutants = list(getattr(mod, "MUTANTS", []))
     twins = list(getattr(mod, "TWINS", []))
@@ -103,8 +158,19 @@ def run(prop_id, mod, prog, ctx, jobs=16):
     from .benign import KINDS
     with ProcessPoolExecutor(max_workers=len(KINDS)) as ex:
         benign = list(ex.map(_benign_one, [(prop_id, prog.root, k, base_keys) for k in KINDS]))
+    base_keys0 = base_keys
+    ref, seeds = _corpora(prop_id)
+    with ProcessPoolExecutor(max_workers=jobs) as ex:
+        pres = list(ex.map(_patch_one, [(prop_id, prog.root, pid, pth, base_keys0) for pid, pth in ref + seeds]))
+    pmap = {r["id"]: r for r in pres}
+    ref_res = [pmap[pid] for pid, _ in ref if pmap[pid]["status"] != "inapplicable"]
+    seed_res = [pmap[pid] for pid, _ in seeds if pmap[pid]["status"] != "inapplicable"]
     res = {r["id"]: r for r in results}
-    out = {"mutants_applied": 0, "mutants_killed": 0, "mutants_inapplicable": 0, "twins_applied": 0,
+    out = {"refactorings_applied": len(ref_res), "refactorings_silent": sum(1 for r in ref_res if r["status"] == "ran" and not r["reports"]),
+           "noisy_refactorings": [{"id": r["id"], "reports": r.get("reports", [])[:4]} for r in ref_res if not (r["status"] == "ran" and not r["reports"])],
+           "seeded_applied": len(seed_res), "seeded_reported": sum(1 for r in seed_res if r["status"] != "ran" or r["reports"]),
+           "seeded_missed": [r["id"] for r in seed_res if r["status"] == "ran" and not r["reports"]],
+           "mutants_applied": 0, "mutants_killed": 0, "mutants_inapplicable": 0, "twins_applied": 0,
            "twins_silent": 0, "missed": [], "noisy_twins": [], "detail": [],
            "benign_rewrites": {b["kind"]: ("silent" if b["silent"] else b["reports"][:4]) for b in benign},
            "benign_rewrites_silent": sum(1 for b in benign if b["silent"]), "benign_rewrites_applied": len(benign)}
